@@ -98,6 +98,8 @@ pub fn gen(idx: u64, rng: &mut Rng, tier: Tier) -> Scn {
     let mut s = gen_history(rng, if tier == Tier::Quick { 60 } else { 300 }, true);
     s.snapshots = true;
     for o in s.objects.iter_mut() {
+        // (no pacing here: the driver's end-of-run detection and the liveness rules assume un-paced objects; C14 has them)
+        o.target = None;
         o.max_transfer_count = rng.range(1, 4) as u32;
         // a disk error when a LATER transfer starts (the source is rewound then): that transfer is aborted, the life
         // cycle goes on (the object is handed back, counted, retransmitted / dropped as configured)
@@ -116,6 +118,23 @@ pub fn gen(idx: u64, rng: &mut Rng, tier: Tier) -> Scn {
             when: When::AfterPkt(rng.range(1, 100)),
             op: Op::Trigger { obj: i, at_us: if rng.chance(0.5) { None } else { Some(rng.range(0, 1_000_000)) } },
         });
+    }
+    // objects added while others are in flight, published some packets later (transfers end and objects are queued again
+    // between the add and the publication): they are due like any other
+    if rng.chance(0.25) {
+        let n0 = s.objects.len();
+        for j in 0..rng.range(1, 2) as usize {
+            let i = n0 + j;
+            let mut o = gen_object(rng, i, &s.spec, 30);
+            o.carousel = None;
+            o.target = None;
+            o.start_ms = None;
+            o.max_transfer_count = rng.range(1, 2) as u32;
+            s.objects.push(o);
+            let k = rng.range(1, 60);
+            s.ops.push(TimedOp { when: When::AfterPkt(k), op: Op::Add(i) });
+            s.ops.push(TimedOp { when: When::AfterPkt(k + *rng.pick(&[0u64, 1, 3, 9, 20])), op: Op::Publish });
+        }
     }
     s.ops.retain(|t| t.op != Op::CloseSession);
     Scn { sender: s }
